@@ -28,7 +28,6 @@ import (
 	"sync"
 	"time"
 
-	set "github.com/deckarep/golang-set"
 	"github.com/golang/protobuf/proto"
 	"github.com/omec-project/upf-epc/logger"
 	pb "github.com/omec-project/upf-epc/pfcpiface/bess_pb"
@@ -116,7 +115,13 @@ func c09MkConf(cs []c09Conf) *Conf {
 var c09Quiet sync.Once
 
 func c09Silence() {
-	c09Quiet.Do(func() { logger.SetLogLevel(zapcore.FatalLevel) })
+	c09Quiet.Do(func() {
+		logger.SetLogLevel(zapcore.FatalLevel)
+		// bess.SendMsgToUPF joins its per-rule goroutines with this timeout (1 s in production) and
+		// cancels the calls still in flight; on a loaded machine that would truncate a batch. A
+		// completed join returns at once, so the larger value costs nothing.
+		Timeout = 120 * time.Second
+	})
 }
 
 // ---------------------------------------------------------------------------- recording BESS server
@@ -522,9 +527,8 @@ func c09RunUp4(in c09Up4In) (interface{}, error) {
 	up4.initApplicationIDs()
 	up4.initAllCounters()
 	up4.initMetersPools()
-	// deterministic meter cells: keep only a handful of ids in the pools is not possible with a
-	// set; the monitor therefore identifies meter entries through up4.meters (reported below)
-	_ = set.NewSet
+	// meter cells come out of a golang-set (arbitrary element): the monitor identifies the cells of a
+	// QER through up4.meters, reported below, instead of predicting them
 	const fseid = uint64(0x2222)
 	const ue = uint32(0x0a640001)
 	action := uint8(ActionForward)
